@@ -181,7 +181,7 @@ def check_callable(role, tis, k, ret, layout=0):
             if rspec[1] == 0 and (want_call + ";") not in body:
                 problems.append("arity %d: void call statement missing" % a)
             mret = {0: "", 1: "varargout{1} = ", 2: "[ varargout{1} varargout{2} ] = "}[rspec[1]]
-            if role != "static" and not re.search(r"\n\s*" + re.escape(mret) + r"mod_wrapper\(" + wid, m):
+            if not re.search(r"\n\s*" + re.escape(mret) + r"mod_wrapper\(" + wid, m):
                 problems.append("arity %d: MATLAB side assigns outputs differently from %r" % (a, mret))
     if problems:
         return _fail(text=text, problems=problems)
@@ -203,8 +203,6 @@ def _run(role, n, k, t0, t1, ret, exact=False):
         tis = [t0, (t0 * 5 + 3 + t1 * 7) % NP, (t0 * 3 + 7 + t1) % NP, (t0 + 11) % NP][:n]
         if not exact:
             ret = (ret * 3 + t0 + n + 2 * k + role) % NR
-        if role == 2 and ret == 0:
-            ret = 1                         # the generator gives every static method an output
         if role == 0:
             ret = 0
         if role == 3 and kf_open("C06-foreign-scope-enum") and uses_enum(tis, ret):
@@ -302,15 +300,19 @@ def c06_expand(n: int, mask: int) -> bool:
     return ok
 
 
-def check_function_overloads(r1, r2, r3):
-    """three overloads of one free function with their own return shapes; arities 0 / 3 / 2,1"""
+def check_function_overloads(r1, r2, r3, role=0):
+    """three overloads of one free function (role 0) / method (1) / static method (2) with their own return shapes; arities 0 / 3 / 2,1"""
     sigs = [(r1, "", [0]), (r2, "double x, double y, double z", [3]), (r3, "string s, int v = 1", [2, 1])]
+    decl = " ".join(("%s doIt(%s);", "%s doIt(%s) const;", "static %s doIt(%s);")[role] % (RETS[r][0], a) for r, a, _ in sigs)
     text = ("namespace ns { class Other { Other(); }; }\nnamespace top { enum Color { Red, Green }; " +
-            " ".join("%s doIt(%s);" % (RETS[r][0], a) for r, a, _ in sigs) + " }\n")
+            (decl if role == 0 else "class Cls { Cls(); %s };" % decl) + " }\n")
     files, cpp, _w = pipe.matlab(text)
-    m = files.get("+top/doIt.m")
+    m = files.get("+top/doIt.m" if role == 0 else "+top/Cls.m")
     if m is None:
-        return _fail(text=text, problems=["no +top/doIt.m", sorted(files)])
+        return _fail(text=text, problems=["no MATLAB file for doIt", sorted(files)])
+    if role:
+        i0 = m.index("function varargout = doIt(")
+        m = m[i0:m.index("error('Arguments do not match", i0)]
     routines = dict(readers.mex_routines(cpp))
     cases = dict(readers.mex_cases(cpp))
     guards = re.findall(r"(?:if|elseif) length\(varargin\) == (\d+)[^\n]*\n\s*((?:\[ varargout\{1\} varargout\{2\} \] = |varargout\{1\} = )?)mod_wrapper\((\d+)", m)
@@ -338,17 +340,18 @@ def check_function_overloads(r1, r2, r3):
     return True
 
 
-def c06_function_overloads(r1: int, r2: int, r3: int) -> bool:
+def c06_function_overloads(r1: int, r2: int, r3: int, role: int) -> bool:
     """
-    Overloads of one free function with DIFFERENT return shapes (void / value / object / pair): each arity's
-    MATLAB-side output assignment and C++ routine follow that overload's own declared return type.
-    pre: 0 <= r1 < NR and 0 <= r2 < NR and 0 <= r3 < NR
+    Overloads of one free function / method / static method with DIFFERENT return shapes (void / value / object / pair):
+    each arity's MATLAB-side output assignment and C++ routine follow that overload's own declared return type.
+    pre: 0 <= r1 < NR and 0 <= r2 < NR and 0 <= r3 < NR and 0 <= role <= 2
     post: _
     """
     r1, r2 = pick(r1, 0, NR), pick(r2, 0, NR)
     r3 = pick(r3, 0, NR) if THOROUGH else (r1 * 3 + r2 + 1) % NR
+    role = pick(role, 0, 3) if THOROUGH else (r1 + r2) % 3
     with concrete():
-        ok = check_function_overloads(r1, r2, r3)
+        ok = check_function_overloads(r1, r2, r3, role)
     reached({"returns": [RETS[r][0] for r in (r1, r2, r3)]} if (not ok or (r1 == 7 and r2 == 0)) else None)
     return ok
 
@@ -391,8 +394,7 @@ def c06_all_types(kind: int, r: int, a: int, role: int) -> bool:
     from harness import c01_tree as A
     from harness.shapes import itext
     kind, a = pick(kind, 0, 2), pick(a, 0, A.NA_LEAF)
-    if kind:
-        r = pick(r, 0, A.NA_ROOT)
+    r = pick(r, 0, A.NA_ROOT) if kind else 0            # (a leaf has no root: keep r concrete)
     role = pick(role, 0, 4) if THOROUGH else (a + r) % 4
     ok = True
     with concrete():
@@ -480,8 +482,8 @@ def conds(tier):
         xh.Cond(M, "c06_method", t(420, 3000), path_timeout=60, kind=sb, examples=["n=2, k=2, t0=8, t1=0, ret=5", "n=3, k=1, t0=12, t1=1, ret=7"], bounds="methods: 0-3 parameters, every default count, " + tb),
         xh.Cond(M, "c06_static", t(420, 3000), path_timeout=60, kind=sb, examples=["n=1, k=1, t0=10, t1=0, ret=6"], bounds="static methods: as methods"),
         xh.Cond(M, "c06_function", t(420, 3000), path_timeout=60, kind=sb, examples=["n=2, k=1, t0=11, t1=0, ret=8"], bounds="free functions: as methods"),
-        xh.Cond(M, "c06_function_overloads", t(300, 1800), path_timeout=60, kind=sb, examples=["r1=0, r2=7, r3=1", "r1=7, r2=0, r3=5"],
-                bounds="3 overloads x %d return shapes each%s" % (NR, "" if not q else " (third derived)")),
+        xh.Cond(M, "c06_function_overloads", t(300, 1800), path_timeout=60, kind=sb, examples=["r1=0, r2=7, r3=1, role=0", "r1=7, r2=0, r3=5, role=0", "r1=0, r2=2, r3=7, role=1", "r1=5, r2=0, r3=8, role=1", "r1=2, r2=7, r3=1, role=2"],
+                bounds="3 overloads x %d return shapes each x {free function, method, static method}%s" % (NR, "" if not q else " (third shape and role derived)")),
         xh.Cond(M, "c06_all_types", t(420, 2400), path_timeout=60, kind=sb, examples=["kind=0, r=0, a=43, role=1", "kind=0, r=0, a=3, role=0", "kind=1, r=11, a=35, role=2", "kind=1, r=27, a=43, role=3"],
                 bounds="every in-dialect leaf of the C01 type algebra and %s templated roots over unqualified leaves, as first parameter (%s)" % ("every second (root, leaf) pair of the" if not q else "every eighth (root, leaf) pair of the", "4 roles" if not q else "role derived")),
         xh.Cond(M, "c06_kf_template_arg_qualifiers", 60, path_timeout=60, kind=sb, bounds="witness of a listed known finding", needs_confirm=False),
